@@ -50,6 +50,7 @@ class MB:
         self.k = 0
         self.tags = []
         self.init_inputs = []  # names of initializers that are also graph inputs
+        self.overrides = {}  # a legal value different from the default, per initializer-input
         self.consumed = set()
         self.outputs = []
 
@@ -76,9 +77,12 @@ class MB:
             return np.array([rng.random() < 0.5 for _ in range(n)], dtype=np.bool_).reshape(shape)
         return np.array([rng.randint(-4, 6) for _ in range(n)], dtype=NP[dt]).reshape(shape)
 
-    def add_init(self, arr, as_input=False, name=None):
+    def add_init(self, arr, as_input=False, name=None, override=None):
         n = name or self.fresh("w")
         arr = np.asarray(arr)
+        if as_input:
+            ov = np.asarray(arr * 2 + 1 if override is None else override, dtype=arr.dtype)
+            self.overrides[n] = ov.reshape(arr.shape) if override is None else ov
         self.inits.append(nh.from_array(arr, n))
         dt = nh.from_array(arr).data_type
         if as_input:
@@ -253,6 +257,13 @@ def s_shape_chain(b: MB):
     sh = b.node("Shape", [x], TP.INT64, [rank], const=False)
     sh.shapeval = True
     b.tag("shape")
+    if None in x.shape and b.rng.random() < 0.5:
+        # another tensor with the same *declared* shape (unnamed dims are not known to be equal at run time)
+        y = b.pick(lambda v: v.kind == "tensor" and v.name != x.name and v.shape == x.shape and not v.const and v.dt == x.dt)
+        if y is not None:
+            b.node("Expand", [y, sh], y.dt, x.shape, const=False)
+            b.tag("expand_othershape")
+            return
     r = b.rng.random()
     if r < 0.25:
         # Reshape / Expand of x by its own shape
@@ -622,17 +633,18 @@ def s_init_input(b: MB):
         if x2 is not None:
             k = b.rng.random()
             if k < 0.4:
-                sw = b.add_init(np.array(x2.shape, dtype=np.int64), as_input=True)
+                sw = b.add_init(np.array(x2.shape, dtype=np.int64), as_input=True, override=np.array(x2.shape[::-1], dtype=np.int64))
                 b.node("Reshape", [x2, sw], TP.FLOAT, [None] * len(x2.shape), const=False)
                 b.tag("initinput_reshape")
             elif k < 0.8:
-                sw = b.add_init(np.array(x2.shape, dtype=np.int64), as_input=True)
+                sw = b.add_init(np.array(x2.shape, dtype=np.int64), as_input=True,
+                                override=np.array([d if k else 1 for k, d in enumerate(x2.shape)], dtype=np.int64))
                 b.node("Expand", [x2, sw], TP.FLOAT, [None] * len(x2.shape), const=False)
                 b.tag("initinput_expand")
             else:
                 # the Dropout is replaced (training_mode off) and the initializer-input loses its only consumer:
                 # it must nevertheless keep its default (C04-D6, fixed)
-                rw = b.add_init(np.array(0.0, dtype=np.float32), as_input=True)
+                rw = b.add_init(np.array(0.0, dtype=np.float32), as_input=True, override=np.array(0.5, dtype=np.float32))
                 b.node("Dropout", [x2, rw, b.const(np.array(False))], TP.FLOAT, x2.shape, const=False)
                 b.tag("initinput_dropout_ratio")
 
@@ -720,7 +732,7 @@ def finish(b: MB):
             m.graph.output.append(h.make_tensor_value_info(v.name, v.dt, [None] * len(v.shape)))
         else:
             m.graph.output.append(t)
-    return ("ok", m, {"tags": b.tags, "init_inputs": b.init_inputs, "syms": dict(SYMS)})
+    return ("ok", m, {"tags": b.tags, "init_inputs": b.init_inputs, "overrides": dict(b.overrides), "syms": dict(SYMS)})
 
 
 def feeds_for(model, rng, variant: int, override: dict | None = None):
@@ -728,13 +740,18 @@ def feeds_for(model, rng, variant: int, override: dict | None = None):
     init_names = {i.name for i in model.graph.initializer}
     syms = [{"N": 2, "M": 3}, {"N": 1, "M": 3}, {"N": 4, "M": 2}, {"N": 3, "M": 1}][variant % 4]
     feeds = {}
+    # unnamed dims are independent of each other: the first input and the others get different sizes in variants 1, 2
+    unnamed = [(2, 2), (1, 3), (3, 1), (1, 1)][variant % 4]
+    idx = -1
     for i in model.graph.input:
         if i.name in init_names:
             if override and i.name in override:
                 feeds[i.name] = override[i.name]
             continue
+        idx += 1
         tt = i.type.tensor_type
-        shape = [d.dim_value if d.HasField("dim_value") else syms.get(d.dim_param, 2) for d in tt.shape.dim]
+        shape = [d.dim_value if d.HasField("dim_value") else
+                 (syms.get(d.dim_param, 2) if d.dim_param else unnamed[min(idx, 1)]) for d in tt.shape.dim]
         n = int(np.prod(shape)) if shape else 1
         if tt.elem_type == TP.FLOAT:
             if variant == 0:
